@@ -121,7 +121,7 @@ def run(c, facts, tier):
     if len(fed_t) == 1 and opts is not None:
         t = fed_t[0]
         cs = t["cases"]
-        good_case = len(cs) == 1 and cs[0]["pat"] is None and not cs[0].get("unrecognised") and len(cs[0]["effects"]) == 1 and S.is_update_of(cs[0]["effects"][0], upd.name, opts, cs[0]["elem"])
+        good_case = len(cs) == 1 and cs[0]["pat"] is None and not cs[0].get("unrecognised") and len(cs[0]["effects"]) == 1 and S.is_update_of(cs[0]["effects"][0], upd.name, opts, cs[0]["elem"], cs[0].get("env"))
         okf = good_case and not t["adaptors"] and not S.unknown
         detf = "traversal (%s) over the leading list: adaptors %s (only order-preserving iteration allowed), per element: %s%s" % (
             t["spelling"],
@@ -134,7 +134,7 @@ def run(c, facts, tier):
     c.ob("C13.leading", inner, "leading options are registered in input order", okf, detf)
     from .. import mir as _mir
 
-    owners = [inner] + [e_["ir"]["fn"] for e_ in S.parses()[:1] if e_["ir"]["t"] == "ref"]
+    owners = [inner] + [e_["ir"]["fn"] for e_ in S.parses()[:1] if e_["ir"]["t"] == "ref"] + [e_["via"]["fn"] for e_ in S.parses()[:1] if e_.get("via") is not None and e_["via"].get("t") == "ref"]
     nacc = _mir.order_rule(c, facts, "C13.leading", owners, "the last occurrence of an option must win, so the options have to be registered in the order written")
     c.ob("C13.leading", inner, "the leading options are an accumulation of the resolved program", nacc >= 1, "%d winnow accumulation(s) found in %s" % (nacc, owners), nontrivial=False)
     # the loop stops by Backtrack on the first non-option, leaving the rest untouched
@@ -166,7 +166,7 @@ def run(c, facts, tier):
                 if pv and pv[0] == "Token::Global":
                     bind = rx.pat_bindings(p)
                     res = cs["result"]
-                    ups = [x for x in cs["effects"] if opts is not None and S.is_update_of(x, upd.name, opts, bind[0] if bind else None)]
+                    ups = [x for x in cs["effects"] if opts is not None and S.is_update_of(x, upd.name, opts, bind[0] if bind else None, cs.get("env"))]
                     rest = [x for x in cs["effects"] if x not in ups]
                     glob_ok = len(ups) == 1 and not rest and isinstance(res, dict) and src(res) == "Token::Test(Test::True)" and not cs.get("guard")
                 elif p is None or rx.is_catchall(p):
@@ -205,8 +205,19 @@ def run(c, facts, tier):
         c.ob("C13.last-wins", upd.key, "%s assigns (never merges)" % var, ok, det, witness="-threads 2 -threads 8" if ok is False else None)
     # two different options must not write the same field with different meaning: informational
     # the options object that is updated (leading pass and token map) is the one returned, and it starts from the defaults
-    upd_calls = find_all(infn.body, lambda n: n.get("k") == "mcall" and n["m"] == upd.name)
-    recv_same = opts is not None and all(rx.peel(n["recv"]).get("k") == "path" and S.env.get(rx.peel(n["recv"])["segs"][0]) is opts for n in upd_calls)
+    # every registration — in the inner function or in the helpers it was split into — goes to the object that is returned
+    bodies = [infn.body] + [facts.fns[k_].body for k_ in S.inlined] + [facts.fns[e_["via"]["fn"]].body for e_ in S.events if e_["e"] == "parse" and e_.get("via") is not None and e_["via"].get("t") == "ref" and e_["via"]["fn"] in facts.fns]
+    upd_calls = [n for bd in bodies for n in find_all(bd, lambda n: n.get("k") == "mcall" and n["m"] == upd.name)]
+    seen_ok = set()
+    for t_ in S.traversals():
+        for cs_ in t_["cases"]:
+            for x_ in cs_["effects"]:
+                for n in find_all(x_, lambda n: n.get("k") == "mcall" and n["m"] == upd.name):
+                    r_ = rx.peel(n["recv"])
+                    env_ = cs_.get("env") or S.env
+                    if opts is not None and r_.get("k") == "path" and len(r_["segs"]) == 1 and env_.get(r_["segs"][0]) is opts:
+                        seen_ok.add(id(n))
+    recv_same = opts is not None and all(id(n) in seen_ok for n in upd_calls)
     init_ok = opts is not None and opts["v"] == "fresh" and opts.get("ty") == "RunOptions" and opts.get("ctor") in ("default", "new")
     c.ob(
         "C13.last-wins",
